@@ -8,4 +8,13 @@ PROPS = {
         ],
         assumptions=["Real-valued DecodeParms entries are projected to their truncated integer by the harness (getIntParam does int(float64))"],
     ),
+    "C17": dict(
+        gen=[],
+        trusted=[
+            "encoding/xml (unmarshalling of worksheet/sharedStrings parts) and archive/zip are oracles: the model receives the abstract rows/cells the harness wrote; number formatting (formatNumber) is the identity in the code and in the model",
+            "modelled: xlsx ParseCellRef, ColumnToIndex, IndexToColumn, CellRef, ParseRangeRef, parseWorksheet (dimension pass, dense grid, placement, type switch, merge marking), parseSharedStrings (plain/rich), TextWithOptions for one sheet, findContentBounds+sheetToTable. Go int overflow of ColumnToIndex beyond 13 letters is not modelled (unbounded Z)",
+        ],
+        assumptions=["non-ASCII column strings are outside the byte-level model of strings.ToUpper"],
+        timeout=3000,
+    ),
 }
